@@ -3,7 +3,7 @@
    rotateMem), db_state.go (newMem), db_compaction.go (memCompaction, compactionTransact: retry, compactionCommit),
    session.go (commit: flushManifest, or newManifest when s.manifest == nil, the manifest is too big, or
    s.manifestFailed), session_util.go (flushManifest, newManifest), db_transaction.go (Commit: three attempts,
-   commitFailed, setSeq on a failed attempt; discard: fresh manifest before the tables of a failed commit are
+   commitFailed, the sequence numbers of a failed commit are consumed by the discard; discard: fresh manifest before the tables of a failed commit are
    removed, tables kept when that fails too) and db.go (Close, recoverJournal: the first commit after Open
    writes a fresh manifest, obsolete journals are removed after it).
 
@@ -63,7 +63,7 @@ Definition collapse (es : list medit) : medit :=
 Definition collapse_man (p : pstate) : pstate := set_man p [collapse (p_man p)] 1.
 
 (* a transaction record that reached the manifest although its commit failed: appended, not synced, not
-   acknowledged; the sequence numbers it carries are consumed (Commit: setSeq on a failed attempt) *)
+   acknowledged; the sequence numbers it carries are consumed (Commit: the sequence numbers of a failed commit are consumed by the discard) *)
 Definition txn_ghost (p : pstate) (n : N) : pstate :=
   match p_frozen p, j_recs (p_live p) with
   | None, [] =>
@@ -268,7 +268,7 @@ Definition fstep (s : fstate) (o : fop) : fstate :=
   | FTxnDiscard freshok =>
       match f_txn s with
       | Some (n, failed) =>
-          (* the sequence numbers of a failed commit are consumed (Commit: setSeq on a failed attempt; in the
+          (* the sequence numbers of a failed commit are consumed (Commit: the sequence numbers of a failed commit are consumed by the discard; in the
              file view they already are when the record reached the manifest): both views continue from
              the same number *)
           let b := {| b_seq := p_seq (f_m s) + 1; b_n := n |} in
